@@ -32,11 +32,17 @@ def set_module_by_name(parent_module, name, child_module):
 
 def quantize(model, modules=None, **kwargs):
     # Quantization happens in-place
-    for name, m in model.named_modules():
+    qmodules = {}
+    for name, m in model.named_modules(remove_duplicate=False):
         if modules is not None and m not in modules:
+            continue
+        if m in qmodules:
+            # The same module instance is registered under several names: share also its quantized version
+            set_module_by_name(model, name, qmodules[m])
             continue
         qmodule = quantize_module(m, **kwargs)
         if qmodule is not None:
+            qmodules[m] = qmodule
             set_module_by_name(model, name, qmodule)
             qmodule.name = name
             for name, param in m.named_parameters():
